@@ -63,6 +63,7 @@ class Product:
                                        underlying or the log-underlying
         """
         self.payoff_underlying.update(process_representation)
+        self.payoff.update(process_representation)
 
     def __call__(self, underlying) -> float:
         """Applies the underlying value to the payoff product.
